@@ -244,19 +244,19 @@ func collapses(model map[string]bool, k string) bool {
 }
 
 type trieRun struct {
-	c      TrieCase
-	x      *h.Ctx
-	disk   *ethdb.MemDatabase
-	tdb    *trie.Database
-	t      uTrie
-	model  map[string][]byte
-	pins   []common.Hash
-	dirty  bool // changes since the last commit
-	last   common.Hash
-	ref    rTrie
-	fork   uTrie
-	forkM  map[string][]byte
-	stats  struct{ collapse, embedded, big, small, node32, prefixKey, unloadCommits, commits int }
+	c     TrieCase
+	x     *h.Ctx
+	disk  *ethdb.MemDatabase
+	tdb   *trie.Database
+	t     uTrie
+	model map[string][]byte
+	pins  []common.Hash
+	dirty bool // changes since the last commit
+	last  common.Hash
+	ref   rTrie
+	fork  uTrie
+	forkM map[string][]byte
+	stats struct{ collapse, embedded, big, small, node32, prefixKey, unloadCommits, commits int }
 }
 
 // tkey maps a user key to the key of the underlying trie (hashed for SecureTrie), computed
